@@ -174,6 +174,46 @@ def resolver_universe(rng, sysr):
     return [pk, root[0], root[1][0]]
 
 
+def resolver_universe2(rng, sysr):
+    """a mostly VALID universe (so that resolution gets deep: diamonds, several requirements on one package from
+    different dependents, prerelease bounds) in which a few requirement strings are odd or invalid for the system"""
+    sysi = {0: 4, 1: 3, 2: 6}[sysr]
+    names = [b"a", b"b", b"c", b"d", b"e"][:rng.randrange(3, 6)]
+    if sysr == 1:
+        names = [b"g:" + n for n in names]
+    vers = [[b"1.0.0", b"1.1.0", b"2.0.0", b"2.1.0-rc.1"], [b"1.0", b"1.1", b"2.0", b"2.1-rc1"], [b"1.0", b"1.1", b"2.0", b"2.1rc1", b"1.0.post1"]][sysr]
+    good = [[b"*", b"^1.0.0", b">=1.0.0", b"<2.0.0", b">=2.1.0-rc.0", b"1.x", b"latest"],
+            [b"1.0", b"[1.0,2.0)", b"[1.1,)", b"(,2.0]", b"[2.1-rc1,)"],
+            [b"", b">=1.0", b"<2", b">=0.5a1", b"<=2.1rc1", b"~=1.0", b"==1.*", b">1.0", b"!=1.1"]][sysr]
+    odd = [b"1.0", b"^1.0", b">=1.0,<", b"free text", b">=", b"==", b"[1.0", b"1.0,)", b"||", b">=1.0 ||", b"\xff", b"1.0.0-", b"~=1", b"===x",
+           b">= 1.0 , < 2", b"*.*", b"v1", b"=>1", b"<>1", b"1 - ", b" - 2"]
+    pk = []
+    for n in names:
+        vs = []
+        for ver in rng.sample(vers, rng.randrange(2, len(vers) + 1)):
+            deps = []
+            for dn in rng.sample(names, rng.randrange(1, len(names))):
+                if dn == n:
+                    continue
+                t = []
+                if sysr == 2 and rng.random() < 0.2:
+                    t.append([10, marker_expr(rng)])
+                if rng.random() < 0.1:
+                    t.append([7, rng.choice([b"x", b"x,y"])])
+                deps.append([t, dn, rng.choice(odd) if rng.random() < 0.15 else rng.choice(good)])
+            vs.append([ver, [], deps])
+        pk.append([n] + vs)
+    # two dependents with different requirements on one package, one of them naming a prerelease, one odd
+    if len(pk) >= 3:
+        A, B, C = rng.sample(pk, 3)
+        pre = [b">=2.1.0-rc.0", b"[2.1-rc1,)", b">=0.5a1"][sysr]
+        A[1][2].append([[], C[0], pre])
+        B[1][2].append([[], C[0], rng.choice(odd)])
+        pk[0][1][2] += [[[], A[0], good[0]], [[], B[0], good[0]]]
+    root = pk[0]
+    return [pk, root[0], root[1][0]]
+
+
 def valid_schema(rng, sysr):
     """a well-formed schema text (the syntax of schema.New: package / version / import lines by indentation)"""
     names = [b"alice", b"bob", b"chuck", b"dave", b"@s/erin"][:rng.randrange(2, 6)]
@@ -350,7 +390,7 @@ def cases(ctx):
         out.append(["schemanew", sysr, text])
     for _ in range(ctx.scale(500, 20000)):
         sysr = rng.randrange(3)
-        u = resolver_universe(rng, sysr)
+        u = resolver_universe(rng, sysr) if rng.random() < 0.5 else resolver_universe2(rng, sysr)
         out.append(["resolve", sysr, u[0], u[1], u[2]])
     # the recorded witness of F-C04-6
     out.append(["resolve", 0, [[b"p", [b"1.0.0", [], [[[[8, b"q"]], b"r", b"2"]]]], [b"r", [b"2.0.0", [], [[[[8, b"q"]], b"p", b"1"]]]]], b"p", b"1.0.0"])
